@@ -665,6 +665,22 @@ fn bx<T>(t: T) -> Box<T> {
 
 /// One random data-driven program. `shape` selects the construct family under test.
 pub fn gen_prog(rng: &mut ChaCha8Rng) -> (Prog, &'static str) {
+    let (mut p, label) = gen_prog_plain(rng);
+    if rng.gen_bool(0.12) {
+        // plain decision variables that share their names with iteration variables: inside an iteration the
+        // iteration variable is meant, outside it the decision variable
+        for name in ["i", "v", "j"] {
+            if p.consts.iter().any(|(n, _)| n == name) || p.decls.iter().any(|d| d.base == name) {
+                continue;
+            }
+            p.decls.push(DDecl { base: name.into(), idx: vec![], ty: "Real(0, 5)".into(), binds: vec![] });
+            p.cons.push(DCon { name: None, lhs: DE::Var(name.into(), vec![]), rel: "<=", rhs: DE::Num(4.0), binds: vec![] });
+        }
+    }
+    (p, label)
+}
+
+fn gen_prog_plain(rng: &mut ChaCha8Rng) -> (Prog, &'static str) {
     let shape = rng.gen_range(0..12);
     let n = rng.gen_range(0..4) as i64; // 0 gives empty ranges / aggregations
     let a = small_array(rng, 0..4, false);
